@@ -12,8 +12,9 @@ PKG = {"crates/lib": "watchexec", "crates/supervisor": "watchexec-supervisor", "
        "crates/events": "watchexec-events", "crates/signals": "watchexec-signals", "crates/ignore-files": "ignore-files",
        "crates/project-origins": "project-origins", "crates/filterer/globset": "watchexec-filterer-globset",
        "crates/filterer/ignore": "watchexec-filterer-ignore"}
-WT = "/tmp/cm/wt"
-TARGET = "/tmp/cm/target"
+SLOT = os.environ.get("CM_SLOT", "")
+WT = "/tmp/cm/wt" + SLOT
+TARGET = "/tmp/cm/target" + SLOT
 
 
 def sh(cmd, cwd=None, timeout=3000):
